@@ -41,7 +41,15 @@ type World struct {
 	execN        int
 	stale        bool   // the node was restarted after a crash on the cache files of an earlier clean stop
 	cause        string // after a crash: between which two durable writes it fell ("" = no crash so far)
+	// ghost: the genuine data of this height was handed to the running loop while the node was `value` heights below it, and
+	// right after the loop had handled it the item was neither in the data cache nor applied nor marked seen (dropped on arrival);
+	// cleared when the genuine data is delivered again and kept
+	dropDist map[uint64]uint64
+	sigOK    map[uint64]string // monitor cache: header hash + signature bytes of height k already verified on this node instance
 }
+
+// farAhead: a data item dropped on arrival more than this many heights above the node is classified as "far ahead"
+const farAhead = 64
 
 // rep reports a violation; after a crash every finding is attributed to the crash point.
 func (w *World) rep(sig, what string) {
@@ -193,6 +201,7 @@ func (w *World) startFull(img map[string][]byte, root string) string {
 	w.full = env
 	w.from = 0
 	w.execN = 0
+	w.sigOK = map[uint64]string{}
 	if err != nil {
 		w.dead = true
 		return "start err"
@@ -246,6 +255,7 @@ func Run(c *hx.Ctx) {
 			}
 			w.prod = p
 			w.hdrDel, w.datDel, w.junkDel, w.junkReplaced, w.junkSame = map[uint64]bool{}, map[uint64]bool{}, map[uint64]bool{}, map[uint64]bool{}, map[uint64]bool{}
+			w.dropDist = map[uint64]uint64{}
 			w.cause, w.stale = "", false
 			c.Emit("%s", w.startFull(nil, ""))
 			w.lastH = w.full.Height()
@@ -274,6 +284,7 @@ func Run(c *hx.Ctx) {
 				continue
 			}
 			w.from = w.full.DS.NumWrites()
+			hBefore := w.full.Height()
 			if !w.dead {
 				if o.Verb == "hdr" {
 					w.full.M.VerifHeaderInCh() <- block.NewHeaderEvent{Header: sh, DAHeight: uint64(o.Int("da"))}
@@ -289,6 +300,13 @@ func Run(c *hx.Ctx) {
 				if !w.settle() {
 					w.dead = true
 					w.rep(w.classifyDeath(), fmt.Sprintf("SyncLoop returned while handling %s h=%d", o.Verb, k))
+				}
+				if o.Verb == "dat" && len(d.Txs) > 0 {
+					// ghost: was the genuine data kept?  (applied, cached at its height, or its commitment known as seen)
+					delete(w.dropDist, k)
+					if !w.dead && k > w.full.Height() && !hasHeight(w.full.M.DataCache().VerifItemHeights(), k) && !w.dataSeen(d) {
+						w.dropDist[k] = k - hBefore
+					}
 				}
 			}
 			c.Emit("%s", w.observe())
@@ -363,6 +381,7 @@ func Run(c *hx.Ctx) {
 				}
 				// the in-memory caches are lost: what was delivered but not applied must be delivered again
 				w.hdrDel, w.datDel, w.junkDel, w.junkReplaced, w.junkSame = map[uint64]bool{}, map[uint64]bool{}, map[uint64]bool{}, map[uint64]bool{}, map[uint64]bool{}
+				w.dropDist = map[uint64]uint64{}
 				if o.Bool("stale") {
 					// ... but the cache FILES of the last clean stop (an older generation of the caches) are still there
 					root = w.full.Root
@@ -432,6 +451,17 @@ func (w *World) classifyDeath() string {
 	return "C02/loop-terminated"
 }
 
+// dataSeen: the commitment of d is in the node's data seen-set
+func (w *World) dataSeen(d *types.Data) bool {
+	dc := d.DACommitment().String()
+	for _, x := range w.full.M.DataCache().VerifSeen() {
+		if strings.EqualFold(x, dc) {
+			return true
+		}
+	}
+	return false
+}
+
 func hasHeight(l []uint64, k uint64) bool {
 	for _, x := range l {
 		if x == k {
@@ -491,6 +521,13 @@ func (w *World) classifyStall(h uint64) string {
 		if !seen && !hasHeight(dcH, h+1) && w.junkReplaced[h+1] {
 			return "C02/stall/junk-p2p-data-replaced-cached-data"
 		}
+		// the genuine data of h+1 was dropped the moment it arrived (never cached, never marked) and has not been delivered since
+		if dist, ok := w.dropDist[h+1]; ok && !seen && !hasHeight(dcH, h+1) {
+			if dist > farAhead {
+				return "C02/stall/far-ahead-data-dropped"
+			}
+			return "C02/stall/data-dropped-on-arrival"
+		}
 	}
 	if w.stale && hasHeight(hcH, h+1) && hasHeight(dcH, h+1) {
 		return "C02/stall/stale-cache-files"
@@ -532,8 +569,17 @@ func (w *World) monitorStore(when string) {
 				}
 			}
 		}
-		if sig, err := e.Store.GetSignature(ctx, k); err != nil || bm.SigClass(e.Pub, &sh.Header, *sig) != "valid" {
+		// the stored signature verifies for the stored header (verified once per node instance and (header hash, signature) pair:
+		// long chains are checked after every event)
+		sig, err := e.Store.GetSignature(ctx, k)
+		if err != nil {
 			w.rep("C02/store/signature", fmt.Sprintf("height %d", k))
+		} else if key := string(sh.Hash()) + "/" + string(*sig); w.sigOK[k] != key {
+			if bm.SigClass(e.Pub, &sh.Header, *sig) != "valid" {
+				w.rep("C02/store/signature", fmt.Sprintf("height %d", k))
+			} else {
+				w.sigOK[k] = key
+			}
 		}
 	}
 	st, err := e.Store.GetState(ctx)
